@@ -458,9 +458,13 @@ class ModulePrinter(ExpressionPrinter):
             for item in node.items:
                 delimiter.new_item()
 
-                if self.precedence(item.context_expr) != 0 and self.precedence(item.context_expr) <= self.precedence(
-                    node
+                if (
+                    len(node.items) == 1
+                    and item.optional_vars is None
+                    and isinstance(item.context_expr, ast.Tuple)
+                    and len(item.context_expr.elts) > 0
                 ):
+                    # A sole parenthesised tuple would be parsed as a parenthesised list of with items (Python 3.9+)
                     self.printer.delimiter('(')
                     self.visit_withitem(item)
                     self.printer.delimiter(')')
